@@ -308,8 +308,10 @@ def enum_build_contract(literal=False):
                       statement="a returned (Literal)EnumProperty is registered under a class name that was absent from the table or "
                                 "held an EnumProperty with equal members (the same inline enum met twice is shared); any other "
                                 "occupant yields a PropertyError; every other entry of the table is kept; the table was asked "
-                                "(Schemas.module_name_taken) whether another class owns the module, and answered no")]
-    return FnContract(Q, [Case("registration", make, clauses, raises=(), props=["C09", "C07", "C12", "C14", "C13"])])
+                                "(Schemas.module_name_taken) whether another class owns the module, and answered no; the "
+                                "caller's own Schemas and its table are left as they were (callers roll a rejected piece back "
+                                "by dropping the returned Schemas)", props=["C09", "C07", "C12", "C08"])]
+    return FnContract(Q, [Case("registration", make, clauses, raises=(), props=["C09", "C07", "C12", "C14", "C13", "C08"])])
 
 
 def literal_enum_build_contract():
